@@ -12,7 +12,7 @@ from .concrete import Kit, flat, lincomb_of, ev_concrete, run_concrete
 
 
 class Trace:
-    __slots__ = ("path", "pub", "priv", "cons", "result", "ref", "state", "extra")
+    __slots__ = ("path", "pub", "priv", "cons", "result", "ref", "state", "extra", "operands")
 
 
 def run_entry(env, entry, cfg):
@@ -48,10 +48,11 @@ def run_entry(env, entry, cfg):
             rt.ignore_errors(True)
         fn = lambda: entry.fn(k)
         for gn in reversed(gnames):
-            fn = (lambda inner, gn=gn: (lambda: rt.guarded(rt.PrivVal(vals[gn]))(inner)()))(fn)
+            fn = (lambda inner, gn=gn: (lambda: rt.guarded(k.G(gn))(inner)()))(fn)
         if gmode in (0, 1):
             fn = (lambda inner: (lambda: rt.guarded(rt.PrivVal(gmode))(inner)()))(fn)
         env.track = bool(cfg.get("track_all"))
+        env.last_kit = k
         try:
             res = fn()
         finally:
@@ -70,7 +71,7 @@ def run_entry(env, entry, cfg):
                 raise
             except Exception as ex:
                 ref = ("exc", ex)
-        return res, snap, state, ref
+        return res, snap, state, ref, list(k.operands)
 
     def body_exc():
         # keep the recorder snapshot also when the body raises
@@ -82,6 +83,7 @@ def run_entry(env, entry, cfg):
             raise
         except Exception as ex:
             ex._verif_snap = ENV.snapshot(env)
+            ex._verif_operands = list(env.last_kit.operands)
             raise
 
     paths = ENG.explore(body_exc, assume=assume)
@@ -91,12 +93,13 @@ def run_entry(env, entry, cfg):
         t.path = p
         t.extra = {}
         if p.ok:
-            t.result, (t.pub, t.priv, t.cons), t.state, t.ref = p.out[1]
+            t.result, (t.pub, t.priv, t.cons), t.state, t.ref, t.operands = p.out[1]
         else:
             t.result = None
             t.pub, t.priv, t.cons = getattr(p.exc, "_verif_snap", ([], [], []))
             t.state = None
             t.ref = None
+            t.operands = getattr(p.exc, "_verif_operands", [])
         traces.append(t)
     return traces, vals
 
